@@ -9,8 +9,8 @@ import time
 
 import z3
 
-Z3_TIMEOUT_MS = int(os.environ.get('PYVC_Z3_TIMEOUT_MS', '20000'))
-CLI_TIMEOUT_S = int(os.environ.get('PYVC_CLI_TIMEOUT_S', '20'))
+Z3_TIMEOUT_MS = int(os.environ.get('PYVC_Z3_TIMEOUT_MS', '10000'))
+CLI_TIMEOUT_S = int(os.environ.get('PYVC_CLI_TIMEOUT_S', '12'))
 
 
 def _to_smt2(pc, neg_goal) -> str:
@@ -37,7 +37,25 @@ def _run_cli(cmd, text, timeout):
         os.unlink(path)
 
 
-def check_valid(pc, goal, want_model=True, all_backends=False, z3_timeout_ms=None):
+def ematch_check(pc, neg, timeout_ms=8000):
+    s = z3.Solver()
+    s.set('smt.mbqi', False)
+    s.set('timeout', timeout_ms)
+    s.add(*pc)
+    s.add(neg)
+    t0 = time.time()
+    r = s.check()
+    if r == z3.unsat:
+        return 'unsat'
+    if r == z3.sat:
+        return 'sat'
+    reason = s.reason_unknown()
+    if 'incomplete' in reason and (time.time() - t0) * 1000 < timeout_ms * 0.8:
+        return 'saturated'
+    return 'unknown'
+
+
+def check_valid(pc, goal, want_model=True, all_backends=False, z3_timeout_ms=None, ematch_probe=False):
     """-> dict(verdict=proved|refuted|unknown, backend, ms, model (z3 ModelRef|None), detail)."""
     t0 = time.time()
     neg = z3.Not(goal)
@@ -57,6 +75,15 @@ def check_valid(pc, goal, want_model=True, all_backends=False, z3_timeout_ms=Non
         res['verdict'] = 'unknown'
         res['detail'] = s.reason_unknown()
     verdicts[res['backend']] = res['verdict']
+    if res['verdict'] == 'unknown' or ematch_probe:
+        # instantiation-only run (no model-based quantifier instantiation): terminates by saturation; 'unsat' is a
+        # proof, 'unknown (incomplete quantifiers)' means no instance of the hypotheses contradicts the negated goal
+        em = ematch_check(pc, neg)
+        res['ematch'] = em
+        if res['verdict'] == 'unknown' and em == 'unsat':
+            res['verdict'] = 'proved'
+            res['backend'] = 'z3-%s (e-matching)' % z3.get_version_string()
+            verdicts[res['backend']] = 'proved'
     if res['verdict'] == 'unknown' or all_backends:
         try:
             text = _to_smt2(pc, neg)
